@@ -261,7 +261,10 @@ func ruleGuardBeforePull(c *Ctx, r *R) {
 			// states: 0,1,2 (2 = two or more) – need a finer count: re-run with N=4
 			_ = e
 		}
-		pf := &PF{N: 4}
+		pkgOne := fn.Pkg
+		pf := &PF{N: 4, InScope: func(f *ssa.Function) bool { // pulls made through a helper of the package count (nextItem(ctx, s))
+			return f.Blocks != nil && rootFn(origin(f)).Pkg == pkgOne && origin(f) != fn
+		}}
 		pf.Instr = func(f *ssa.Function, in ssa.Instruction, q int) (StateSet, bool) {
 			if isPull(in) {
 				if q < 3 {
